@@ -234,3 +234,48 @@ func VerifC06_BlueGreenDeploymentInitializeGuard() {
 	verifrt.Cover("C06.bgdeploy.initialize.done")
 	_ = context.TODO
 }
+
+// VerifC05_BlueGreenDeploymentInitializeKeepsTheSavedSettings: Initialize can run again on a Deployment this release
+// has already claimed (the Preparing phase is re-entered after a lost status update, or after a restart of the plan).
+// By then the live spec holds the release's own values (minReadySeconds at its maximum, maxUnavailable 0, the
+// release's surge), so whatever the second call writes, the saved original settings — the only record of what the
+// user had configured, and what Finalize restores — must still be the user's.
+func VerifC05_BlueGreenDeploymentInitializeKeepsTheSavedSettings() {
+	d := c05Deployment()
+	d.Labels = map[string]string{"app": "w"}
+	d.Spec.Template.Labels = map[string]string{"app": "w"}
+	userMaxUnavailable := intstr.FromInt(verifrt.IntRange("user.maxUnavailable", 0, 1000))
+	userMaxSurge := intstr.FromInt(verifrt.IntRange("user.maxSurge", 0, 1000))
+	userMinReady := int32(verifrt.IntRange("user.minReadySeconds", 0, 3600))
+	userDeadline := int32(verifrt.IntRange("user.progressDeadlineSeconds", 1, 100000))
+	setting := control.OriginalDeploymentStrategy{MaxUnavailable: &userMaxUnavailable, MaxSurge: &userMaxSurge, MinReadySeconds: userMinReady}
+	pd := userDeadline
+	setting.ProgressDeadlineSeconds = &pd
+	saved := util.DumpJSON(&setting)
+	release := &v1beta1.BatchRelease{TypeMeta: metav1.TypeMeta{APIVersion: "rollouts.kruise.io/v1beta1", Kind: "BatchRelease"},
+		ObjectMeta: metav1.ObjectMeta{Namespace: "ns", Name: "br", UID: "uid-1"}}
+	d.Annotations = map[string]string{
+		util.BatchReleaseControlAnnotation:           util.DumpJSON(metav1.NewControllerRef(release, release.GetObjectKind().GroupVersionKind())),
+		v1beta1.OriginalDeploymentStrategyAnnotation: saved,
+	}
+	// what the first Initialize left in the live spec
+	d.Spec.MinReadySeconds = v1beta1.MaxReadySeconds
+	maxDeadline := int32(v1beta1.MaxProgressSeconds)
+	d.Spec.ProgressDeadlineSeconds = &maxDeadline
+	cli := &symclient.Client{ListFn: c05ListHPA("v2", nil, nil)}
+	rc := &realController{client: cli, key: types.NamespacedName{Namespace: "ns", Name: "w"}, object: d}
+	rc.WorkloadInfo = util.ParseWorkload(d)
+	verifrt.Stub("(*github.com/openkruise/rollouts/pkg/util.ControllerFinder).GetDeploymentStableRs", func(r *util.ControllerFinder, obj *apps.Deployment) (*apps.ReplicaSet, error) {
+		return nil, nil
+	})
+	rc.finder = util.NewControllerFinder(cli)
+	err := rc.Initialize(release)
+	verifrt.Assert(err == nil, "C05.bgdeploy.reinitialize.noError")
+	for _, w := range cli.Writes("patch", "Deployment") {
+		if v, has := verifrt.JSONGet(w.Body, "metadata", "annotations", v1beta1.OriginalDeploymentStrategyAnnotation); has {
+			verifrt.Cover("rewrites-the-annotation")
+			verifrt.Assert(v == saved, "C05.bgdeploy.reinitialize.savedSettingsStayTheUsers")
+		}
+	}
+	verifrt.Cover("C05.bgdeploy.reinitialize.done")
+}
